@@ -56,6 +56,18 @@ def gen_case(rng):
 
 
 def run_impl(c):
+    """An exception while rendering is itself a failure of the property (a table exists for EVERY set of series,
+    ragged ones included): it is returned as {'raised': ...} and reported with the input as the replay.  Exceptions
+    of Python's own % formatting of one cell (the trusted parameter of the model) are not caught."""
+    try:
+        return run_impl0(c)
+    except (ValueError, TypeError, OverflowError):
+        raise
+    except Exception as e:
+        return {'raised': '%s: %s' % (type(e).__name__, e)}
+
+
+def run_impl0(c):
     from sfc_models.utils import TimeSeriesHolder
     h = TimeSeriesHolder('k')
     for nm in c['order']:
@@ -93,6 +105,11 @@ def second_case(c):
 def oracle(c, res):
     fails = []
     keys = c['order']
+    if 'raised' in res:
+        return [{'key': 'GenerateCSVtext:raised',
+                 'what': 'rendering the table raised %s (series lengths %r, format %r)' % (
+                     res['raised'], [(k, len(c['series'][k])) for k in keys], c['fmt']),
+                 'replay': {'kind': 'table', 'case': c}}]
     text = res['text']
     if res.get('via_solver') != text:
         fails.append({'key': 'EquationSolver.GenerateCSVtext:differs-from-holder',
@@ -180,6 +197,9 @@ def run(ctx):
         c = gen_case(ctx.rng)
         res = run_impl(c)
         out.failures.extend(oracle(c, res))
+        if 'raised' in res:
+            stats['raised'] = stats.get('raised', 0) + 1
+            continue
         if 'second' in res:
             stats['second_call'] = stats.get('second_call', 0) + 1
             for f in oracle(res['second']['case'], res['second']):
